@@ -445,13 +445,18 @@ impl S {
     fn walk(&self, stage: u64, pg: u64) -> Pairs {
         let mut out: Pairs = vec![];
         let mut after = None;
-        for _ in 0..100_000 {
+        for _ in 0..20_000 {
             match self.page(stage, after, Some(pg)) {
                 None => break,
                 Some(p) if p.is_empty() => break,
                 Some(p) => {
-                    after = Some(p.last().unwrap().0);
+                    let last = p.last().unwrap().0;
                     out.extend(p);
+                    // a cursor that does not advance (broken paging) would never end: keep what was returned and stop
+                    if after == Some(last) || out.len() > 50_000 {
+                        break;
+                    }
+                    after = Some(last);
                 }
             }
         }
@@ -1701,7 +1706,9 @@ fn scripted(ses: &mut Session, sut: &mut S, literal: bool) {
                 ses.step(sut, &format!("inc sender=7 now={} funds=1:5 limit={lim} pg=2", T0 + SEC));
             }
             let f = if fee == 0 { "-".to_string() } else { format!("0:{fee}") };
-            let out = ses.step(sut, &format!("inc sender=7 now={} funds={f} limit={lim} pg=2", T0 + SEC));
+            // the exact payment comes from the admin (an authorisation rule on this message would be C05's business;
+            // that anybody may pay today is exercised by the wrong payments above and by the random traces)
+            let out = ses.step(sut, &format!("inc sender=5 now={} funds={f} limit={lim} pg=2", T0 + SEC));
             if out.starts_with("ok") {
                 cur = lim;
                 ses.mark(format!("{k}:fee:inc:exact:ok:{fc}"));
@@ -1747,11 +1754,13 @@ fn scripted(ses: &mut Session, sut: &mut S, literal: bool) {
         ses.step(sut, &format!("rm sender=5 now={} tip=0 tip2=0 stage=0 addrs=11,11 pg=2", T0 + SEC));
         // an increase between two adds: the list is full, then it is not
         ses.step(sut, &format!("add sender=5 now={} tip=0 tip2=0 stage=0 members=15:1 pg=2", T0 + SEC));
-        let o = ses.step(sut, &format!("inc sender=8 now={} funds=- limit=4 pg=2", T0 + SEC));
+        let o = ses.step(sut, &format!("inc sender=5 now={} funds=- limit=4 pg=2", T0 + SEC));
         expect(ses, &o, "ok", format!("{k}:ok:inc"));
         let o = ses.step(sut, &format!("add sender=5 now={} tip=0 tip2=0 stage=0 members=17:1 pg=2", T0 + SEC));
         expect(ses, &o, "ok", format!("{k}:cap:add-after-inc:ok"));
         ses.step(sut, &format!("add sender=5 now={} tip=0 tip2=0 stage=0 members=16:1 pg=2", T0 + SEC));
+        // anybody may pay for more capacity (no admin check in the code)
+        ses.step(sut, &format!("inc sender=8 now={} funds=- limit=5 pg=2", T0 + SEC));
         // the removal gate at start -1 / 0 / +1 ns (the schedule is C12/C13's; here: count and storage stay exact either way)
         ses.step(sut, &format!("rm sender=5 now={} tip=0 tip2=0 stage=0 addrs=11 pg=2", st - 1));
         ses.step(sut, &format!("rm sender=5 now={} tip=0 tip2=0 stage=0 addrs=13 pg=2", st));
@@ -1972,7 +1981,7 @@ fn main() {
     exhaustive(&mut ses, &mut sut, depth);
     let mut rng = ses.rng.fork();
     let traces = ses.scale(330, 4200);
-    let n_ops = ses.scale(24, 30);
+    let n_ops = if ses.tier() == Tier::Quick { 24 } else { 30 };
     for i in 0..traces {
         for kind in [Kind::Plain, Kind::Flex, Kind::Tiered, Kind::TFlex, Kind::Immutable] {
             if kind == Kind::Immutable && i % 4 != 0 {
